@@ -175,7 +175,10 @@ static var Odd;
 /* ---------- sequences ---------- */
 
 enum { MAXSEQ = 7 };
-struct seqref { int kind; int n; int64_t v[MAXSEQ]; };
+struct seqref { int kind; int n; int64_t v[MAXSEQ]; unsigned share; };
+/* Tuples hold references: two Tuples may hold the very same object at the same index (never twice inside one Tuple here:
+   iteration over such a Tuple is the open C11 finding).  One interned Int per (index, small value). */
+static var SHARED[MAXSEQ][5];
 
 static int seq_ref_cmp(const struct seqref* a, const struct seqref* b) {
   for (int i = 0; ; i++) {
@@ -195,7 +198,8 @@ static var seq_build(const struct seqref* s) {
   else if (s->kind == 1) { c = new(List, Int); }
   else { c = new(Tuple); }
   for (int i = 0; i < s->n; i++) {
-    if (s->kind == 2) { push(c, new(Int, $I(s->v[i]))); }
+    if (s->kind == 2 && (s->share >> i & 1) && s->v[i] >= -2 && s->v[i] <= 2) { push(c, SHARED[i][s->v[i] + 2]); vh_count("tuple_slots_holding_an_object_shared_with_other_tuples"); }
+    else if (s->kind == 2) { push(c, new(Int, $I(s->v[i]))); }
     else { push(c, $I(s->v[i])); }
   }
   return c;
@@ -209,9 +213,11 @@ static void seq_desc(const struct seqref* s, char* out, size_t cap) {
 
 static void rand_seq(vh_rng* r, struct seqref* s, const struct seqref* like) {
   s->kind = (int)vh_below(r, 3);
+  s->share = vh_chance(r, 60) ? (unsigned)vh_below(r, 128) | 1u : 0;
   if (like && vh_chance(r, 60)) {
     /* a neighbour of `like`: same prefix, then shorter / longer / one element changed */
-    *s = *like; s->kind = (int)vh_below(r, 3);
+    unsigned sh = s->share;
+    *s = *like; s->kind = (int)vh_below(r, 3); s->share = vh_chance(r, 70) ? (like->share | sh) : sh;
     switch (vh_below(r, 4)) {
       case 0: if (s->n > 0) { s->n--; } break;
       case 1: if (s->n < MAXSEQ) { s->v[s->n++] = vh_range(r, -2, 2); } break;
@@ -449,6 +455,7 @@ static void case_random(vh_rng* r, long index) {
 int main(int argc, char** argv) {
   Plain = new_root(Type, $S("Plain"), $I(sizeof(struct Plain)));
   Odd = new_root(Type, $S("Odd"), $I(sizeof(struct Odd)));
+  for (int i = 0; i < MAXSEQ; i++) { for (int v = 0; v < 5; v++) { SHARED[i][v] = new_root(Int, $I(v - 2)); } }
   for (int i = 0; i < NPFX; i++) { PFX[i] = new_root(Type, $S((char*)PFX_NAMES[i]), $I(8 + 8 * (i % 3))); }
   build_int_grid();
   build_float_grid();
